@@ -160,6 +160,7 @@ def run_utf8(ctx, st):
     try:
         out = list(p.feed_generator(iter(evs)))
     except Exception as e:      # noqa
+        __import__('vxlib.symx.core', fromlist=['x']).proxy_rejected(e)
         ctx.check('C08/utf8/%s/no-error' % what, False, '%s: %s' % (type(e).__name__, e)); ctx.reach(); return
     L = 'C08/utf8/' + what
     if what == 'lookup':
@@ -188,6 +189,7 @@ def run_lookup(ctx, st):
             if r is not None:
                 traces.append((kind, r))
     except Exception as e:      # noqa
+        __import__('vxlib.symx.core', fromlist=['x']).proxy_rejected(e)
         ctx.check('C08/lookup/no-error', False, '%s: %s' % (type(e).__name__, e)); ctx.reach(); return
     lk = [r for kind, r in traces if type(r).__name__ == 'VfsLookup']
     ctx.check('C08/lookup-continuation-trace', len(lk) <= 1,
@@ -243,6 +245,7 @@ def run_gstring(ctx, st):
             if r is not None:
                 traces.append(r)
     except Exception as e:      # noqa
+        __import__('vxlib.symx.core', fromlist=['x']).proxy_rejected(e)
         ctx.check('C08/gstring/no-error', False, '%s: %s' % (type(e).__name__, e)); ctx.reach(); return
     ctx.check('C08/global-string-continuation', len(traces) <= 1, '%d traces for one %d-byte string' % (len(traces), st['len']))
     ctx.check('C08/gstring/one-trace', len(traces) >= 1)
@@ -274,6 +277,7 @@ def run_tname(ctx, st):
             if r is not None:
                 traces.append(r)
     except Exception as e:      # noqa
+        __import__('vxlib.symx.core', fromlist=['x']).proxy_rejected(e)
         ctx.check('C08/tname/no-error', False, '%s: %s' % (type(e).__name__, e)); ctx.reach(); return
     ctx.check('C08/tname/one-trace', len(traces) == 1, '%d traces for one thread name' % len(traces))
     if traces:
@@ -308,6 +312,7 @@ def run_syscall(ctx, st):
     except OutOfDomain:
         ctx.reach('ood'); ctx.reach(); return
     except Exception as e:      # noqa: a decoder that cannot cope with this number of lookups is C07's subject
+        __import__('vxlib.symx.core', fromlist=['x']).proxy_rejected(e)
         ctx.reach('exc:' + type(e).__name__); ctx.reach(); return
     L = 'C08/%s' % name
     lk = [t for t in out if type(t).__name__ == 'VfsLookup']
